@@ -59,7 +59,12 @@ func (h *c30HNS) HNSListEndpointRequest() ([]hns.HNSEndpoint, error) {
 			st = s
 		}
 	}
-	return []hns.HNSEndpoint{{Id: "c30-ep", Name: "c30-ep", VirtualNetworkName: "Calico", IPAddress: net.ParseIP("10.65.0.2"), State: st}}, nil
+	var out []hns.HNSEndpoint
+	for i := 0; i < 4; i++ {
+		out = append(out, hns.HNSEndpoint{Id: fmt.Sprintf("c30-ep%d", i), Name: fmt.Sprintf("c30-ep%d", i), VirtualNetworkName: "Calico",
+			IPAddress: net.ParseIP(fmt.Sprintf("10.65.0.%d", 2+i)), State: st})
+	}
+	return out, nil
 }
 
 type c30NoStaticRules struct{}
@@ -690,12 +695,14 @@ type c30Scenario struct {
 	ipp       map[string][]string
 	pols      []*c30PolDef
 	profs     []*c30PolDef
-	ep        *proto.WorkloadEndpoint
+	eps       []*proto.WorkloadEndpoint // endpoints sharing one PolicySets / endpointManager (same policy pool, own tier subsets)
+	order     []int                     // render sequence (indices into eps); repeats are refreshes
 	features  hns.HNSAclFeatures
 	portCands []int // boundary ports for the connection grid
 }
 
 type c30Outcome struct {
+	lastAndNonLast, lastAndNonLastWithPass                                             bool
 	sawAllow, sawBlock, laterDecided, bigDecided, grouped, profilesAppended, manyLists bool
 	nConns, nFinal                                                                     int
 }
@@ -791,10 +798,14 @@ func (sc *c30Scenario) describe() string {
 			fmt.Fprintf(&sb, "   out %s\n", c30DescribeRule(r))
 		}
 	}
-	for _, ti := range sc.ep.Tiers {
-		fmt.Fprintf(&sb, "tier %s default=%q ingress=%v egress=%v\n", ti.Name, ti.DefaultAction, policyIDsToStrings("", ti.IngressPolicies), policyIDsToStrings("", ti.EgressPolicies))
+	for i, ep := range sc.eps {
+		fmt.Fprintf(&sb, "endpoint %d:\n", i)
+		for _, ti := range ep.Tiers {
+			fmt.Fprintf(&sb, "   tier %s default=%q ingress=%v egress=%v\n", ti.Name, ti.DefaultAction, policyIDsToStrings("", ti.IngressPolicies), policyIDsToStrings("", ti.EgressPolicies))
+		}
+		fmt.Fprintf(&sb, "   profiles %v\n", ep.ProfileIds)
 	}
-	fmt.Fprintf(&sb, "profiles %v\n", sc.ep.ProfileIds)
+	fmt.Fprintf(&sb, "render order (endpoint indices; repeats are refreshes): %v\n", sc.order)
 	return sb.String()
 }
 
@@ -835,14 +846,13 @@ func c30Check(t c30TB, sc *c30Scenario, smallLimit func(n int) int) c30Outcome {
 	for _, pd := range sc.profs {
 		pm.OnUpdate(&proto.ActiveProfileUpdate{Id: &proto.ProfileID{Name: pd.id.Name}, Profile: &proto.Profile{InboundRules: pd.in, OutboundRules: pd.out}})
 	}
-	ep := sc.ep
-
 	// Reference lists per direction (which lists exist: as documented in endpoint_mgr.go).
 	type listSrc struct {
 		names   []string
 		eotDrop bool
+		ids     []*proto.PolicyID
 	}
-	buildLists := func(inbound bool) ([]*c30RefList, []listSrc) {
+	buildLists := func(ep *proto.WorkloadEndpoint, inbound bool) ([]*c30RefList, []listSrc) {
 		var lists []*c30RefList
 		var srcs []listSrc
 		defaultApplies := false
@@ -867,7 +877,7 @@ func c30Check(t c30TB, sc *c30Scenario, smallLimit func(n int) int) c30Outcome {
 				}
 			}
 			lists = append(lists, l)
-			srcs = append(srcs, listSrc{policyIDsToStrings(policysets.PolicyNamePrefix, ids), l.endOfTierDrop})
+			srcs = append(srcs, listSrc{policyIDsToStrings(policysets.PolicyNamePrefix, ids), l.endOfTierDrop, ids})
 		}
 		if len(lists) == 0 || !defaultApplies {
 			l := &c30RefList{name: "profiles", endOfTierDrop: true}
@@ -883,14 +893,50 @@ func c30Check(t c30TB, sc *c30Scenario, smallLimit func(n int) int) c30Outcome {
 				}
 			}
 			lists = append(lists, l)
-			srcs = append(srcs, listSrc{profileIDsToStrings(policysets.ProfileNamePrefix, ep.ProfileIds), true})
+			srcs = append(srcs, listSrc{profileIDsToStrings(policysets.ProfileNamePrefix, ep.ProfileIds), true, nil})
 			oc.profilesAppended = true
 		}
 		return lists, srcs
 	}
-	refIn, srcIn := buildLists(true)
-	refOut, srcOut := buildLists(false)
-	oc.manyLists = len(refIn) >= 3 || len(refOut) >= 3
+	// Class: some policy sits in the last list of one endpoint and in a non-last list of another.
+	{
+		type pos struct{ last, nonLast bool }
+		seen := map[string]*pos{}
+		for _, ep := range sc.eps {
+			for _, inbound := range []bool{true, false} {
+				_, srcs := buildLists(ep, inbound)
+				for li, src := range srcs {
+					for _, id := range src.ids {
+						k := fmt.Sprintf("%v|%s", inbound, policyIDToString("", id))
+						if seen[k] == nil {
+							seen[k] = &pos{}
+						}
+						if li == len(srcs)-1 {
+							seen[k].last = true
+						} else {
+							seen[k].nonLast = true
+						}
+					}
+				}
+			}
+		}
+		for _, k := range c30SortedKeys(seen) {
+			if seen[k].last && seen[k].nonLast {
+				oc.lastAndNonLast = true
+				pd := polByKey[k[strings.IndexByte(k, '|')+1:]]
+				rules := pd.out
+				if strings.HasPrefix(k, "true") {
+					rules = pd.in
+				}
+				for _, r := range rules {
+					if a := strings.ToLower(r.Action); a == "pass" || a == "next-tier" {
+						oc.lastAndNonLastWithPass = true
+					}
+				}
+			}
+		}
+		oc.profilesAppended = false // only counted for rendered endpoints below
+	}
 
 	// Connection grid.
 	var conns []c30Conn
@@ -913,123 +959,139 @@ func c30Check(t c30TB, sc *c30Scenario, smallLimit func(n int) int) c30Outcome {
 	}
 	oc.nConns = len(conns)
 
-	// Level 1: every single list as rendered by GetPolicySetRules (pass is a verdict here).
-	for _, inbound := range []bool{true, false} {
-		lists, srcs := refOut, srcOut
-		if inbound {
-			lists, srcs = refIn, srcIn
-		}
-		for li, ref := range lists {
-			raw := ps.GetPolicySetRules(srcs[li].names, inbound, srcs[li].eotDrop)
-			parsed := c30ParseHNS(t, raw)
-			for _, c := range conns {
-				if c.inbound != inbound {
-					continue
-				}
-				want, rr := ref.eval(c)
-				wantA := map[string]hns.ActionType{"allow": hns.Allow, "deny": hns.Block, "pass": policysets.ActionPass}[want]
-				got, by, amb := c30EvalHNS(parsed, c)
-				if amb != "" || got != wantA {
-					byS, rrS := "none", "end of list"
-					if by != nil {
-						byS = fmt.Sprintf("#%d", by.idx)
-					}
-					if rr != nil {
-						rrS = c30DescribeRule(rr.r)
-					}
-					t.Fatalf("C30 violation (single list %s %v): connection %s: policy semantics say %s (by %s); GetPolicySetRules output evaluates to %q (by rule %s) %s\n%s\nHNS rules of the list:\n%s",
-						ref.name, srcs[li].names, c, want, rrS, got, byS, amb, sc.describe(), c30DescribeHNS(raw))
-				}
-			}
-		}
-	}
-
-	// Level 2: the endpoint manager's final rules.
+	// One endpoint manager for all endpoints; each render step is checked against the reference of the
+	// rendered endpoint's OWN layout (the PolicySets cache is shared between the endpoints).
 	em := newEndpointManager(h, ps)
 	em.hostAddrs = nil
-	wid := types.WorkloadEndpointID{OrchestratorId: "k8s", WorkloadId: "ns1/c30wl", EndpointId: "eth0"}
-	em.OnUpdate(&proto.WorkloadEndpointUpdate{Id: types.WorkloadEndpointIDToProto(wid), Endpoint: ep})
-	func() {
-		defer func() {
-			if p := recover(); p != nil {
-				t.Fatalf("C30 violation: computing the endpoint's HNS rules panicked: %v\n%s", p, sc.describe())
+	rendered := map[int]bool{}
+	for step, epIdx := range sc.order {
+		ep := sc.eps[epIdx]
+		refIn, srcIn := buildLists(ep, true)
+		refOut, srcOut := buildLists(ep, false)
+		oc.manyLists = oc.manyLists || len(refIn) >= 3 || len(refOut) >= 3
+		what := fmt.Sprintf("render step %d, endpoint %d", step, epIdx)
+
+		// Level 1: every single list as rendered by GetPolicySetRules (pass is a verdict here).
+		for _, inbound := range []bool{true, false} {
+			lists, srcs := refOut, srcOut
+			if inbound {
+				lists, srcs = refIn, srcIn
+			}
+			for li, ref := range lists {
+				raw := ps.GetPolicySetRules(srcs[li].names, inbound, srcs[li].eotDrop)
+				parsed := c30ParseHNS(t, raw)
+				for _, c := range conns {
+					if c.inbound != inbound {
+						continue
+					}
+					want, rr := ref.eval(c)
+					wantA := map[string]hns.ActionType{"allow": hns.Allow, "deny": hns.Block, "pass": policysets.ActionPass}[want]
+					got, by, amb := c30EvalHNS(parsed, c)
+					if amb != "" || got != wantA {
+						byS, rrS := "none", "end of list"
+						if by != nil {
+							byS = fmt.Sprintf("#%d", by.idx)
+						}
+						if rr != nil {
+							rrS = c30DescribeRule(rr.r)
+						}
+						t.Fatalf("C30 violation (%s, single list %s %v): connection %s: policy semantics say %s (by %s); GetPolicySetRules output evaluates to %q (by rule %s) %s\n%s\nHNS rules of the list:\n%s",
+							what, ref.name, srcs[li].names, c, want, rrS, got, byS, amb, sc.describe(), c30DescribeHNS(raw))
+					}
+				}
+			}
+		}
+
+		// Level 2: the endpoint manager's final rules.
+		wid := types.WorkloadEndpointID{OrchestratorId: "k8s", WorkloadId: fmt.Sprintf("ns1/c30wl%d", epIdx), EndpointId: "eth0"}
+		em.OnUpdate(&proto.WorkloadEndpointUpdate{Id: types.WorkloadEndpointIDToProto(wid), Endpoint: ep})
+		func() {
+			defer func() {
+				if p := recover(); p != nil {
+					t.Fatalf("C30 violation (%s): computing the endpoint's HNS rules panicked: %v\n%s", what, p, sc.describe())
+				}
+			}()
+			if err := em.CompleteDeferredWork(); err != nil {
+				t.Fatalf("HARNESS-GAP: CompleteDeferredWork: %v", err)
 			}
 		}()
-		if err := em.CompleteDeferredWork(); err != nil {
-			t.Fatalf("HARNESS-GAP: CompleteDeferredWork: %v", err)
+		final := em.activeWlACLPolicies[wid]
+		if final == nil {
+			t.Fatalf("HARNESS-GAP: endpoint manager applied no rules")
 		}
-	}()
-	final := em.activeWlACLPolicies[wid]
-	if final == nil {
-		t.Fatalf("HARNESS-GAP: endpoint manager applied no rules")
-	}
-	oc.nFinal = len(final)
-	for _, r := range final {
-		if r.Action != hns.Allow && r.Action != hns.Block {
-			t.Fatalf("C30 violation: rule with non-HNS action %q reaches HNS\n%s\nfinal rules:\n%s", r.Action, sc.describe(), c30DescribeHNS(final))
-		}
-	}
-	parsed := c30ParseHNS(t, final)
-	for _, c := range conns {
-		lists := refOut
-		if c.inbound {
-			lists = refIn
-		}
-		want, path, drule := c30RefVerdictRule(lists, c)
-		if drule != nil && drule.fromBig {
-			oc.bigDecided = true
-		}
-		got, by, amb := c30EvalHNS(parsed, c)
-		if amb != "" || got != want {
-			byS := "none"
-			if by != nil {
-				byS = fmt.Sprintf("#%d", by.idx)
-			}
-			t.Fatalf("C30 violation (endpoint manager output): connection %s: policy semantics say %s via %s; HNS rules evaluate to %q (by rule %s) %s\n%s\nHNS rules:\n%s",
-				c, want, path, got, byS, amb, sc.describe(), c30DescribeHNS(final))
-		}
-		if want == hns.Allow {
-			oc.sawAllow = true
-		} else {
-			oc.sawBlock = true
-		}
-		if strings.HasSuffix(path, "*") {
-			oc.laterDecided = true
-		}
-	}
-
-	// Level 3: rewritePriorities' grouped branch on a copy.
-	for _, dir := range []hns.DirectionType{hns.In, hns.Out} {
-		var cp []*hns.ACLPolicy
+		oc.nFinal = len(final)
 		for _, r := range final {
-			if r.RuleType == hns.Switch && r.Direction == dir {
-				c := *r
-				cp = append(cp, &c)
+			if r.Action != hns.Allow && r.Action != hns.Block {
+				t.Fatalf("C30 violation (%s): rule with non-HNS action %q reaches HNS\n%s\nfinal rules:\n%s", what, r.Action, sc.describe(), c30DescribeHNS(final))
 			}
 		}
-		if len(cp) < 2 {
-			continue
-		}
-		limit := policysets.PolicyRuleBasePriority + uint16(smallLimit(len(cp)))
-		rewritePriorities(cp, limit)
-		parsed := c30ParseHNS(t, cp)
+		parsed := c30ParseHNS(t, final)
 		for _, c := range conns {
-			if (dir == hns.In) != c.inbound {
-				continue
-			}
 			lists := refOut
 			if c.inbound {
 				lists = refIn
 			}
-			want, path := c30RefVerdict(lists, c)
-			got, _, amb := c30EvalHNS(parsed, c)
+			want, path, drule := c30RefVerdictRule(lists, c)
+			if drule != nil && drule.fromBig {
+				oc.bigDecided = true
+			}
+			got, by, amb := c30EvalHNS(parsed, c)
 			if amb != "" || got != want {
-				t.Fatalf("C30 violation (rewritePriorities with limit %d on %d rules): connection %s: policy semantics say %s via %s; HNS rules evaluate to %q %s\n%s\nHNS rules:\n%s",
-					limit, len(cp), c, want, path, got, amb, sc.describe(), c30DescribeHNS(cp))
+				byS := "none"
+				if by != nil {
+					byS = fmt.Sprintf("#%d", by.idx)
+				}
+				t.Fatalf("C30 violation (%s, endpoint manager output): connection %s: policy semantics say %s via %s; HNS rules evaluate to %q (by rule %s) %s\n%s\nHNS rules:\n%s",
+					what, c, want, path, got, byS, amb, sc.describe(), c30DescribeHNS(final))
+			}
+			if want == hns.Allow {
+				oc.sawAllow = true
+			} else {
+				oc.sawBlock = true
+			}
+			if strings.HasSuffix(path, "*") {
+				oc.laterDecided = true
 			}
 		}
-		oc.grouped = true
-	}
+
+		// Level 3: rewritePriorities' grouped branch on a copy (first render of an endpoint only).
+		first := !rendered[epIdx]
+		rendered[epIdx] = true
+		for _, dir := range []hns.DirectionType{hns.In, hns.Out} {
+			if !first {
+				break
+			}
+			var cp []*hns.ACLPolicy
+			for _, r := range final {
+				if r.RuleType == hns.Switch && r.Direction == dir {
+					c := *r
+					cp = append(cp, &c)
+				}
+			}
+			if len(cp) < 2 {
+				continue
+			}
+			limit := policysets.PolicyRuleBasePriority + uint16(smallLimit(len(cp)))
+			rewritePriorities(cp, limit)
+			parsed := c30ParseHNS(t, cp)
+			for _, c := range conns {
+				if (dir == hns.In) != c.inbound {
+					continue
+				}
+				lists := refOut
+				if c.inbound {
+					lists = refIn
+				}
+				want, path := c30RefVerdict(lists, c)
+				got, _, amb := c30EvalHNS(parsed, c)
+				if amb != "" || got != want {
+					t.Fatalf("C30 violation (rewritePriorities with limit %d on %d rules): connection %s: policy semantics say %s via %s; HNS rules evaluate to %q %s\n%s\nHNS rules:\n%s",
+						limit, len(cp), c, want, path, got, amb, sc.describe(), c30DescribeHNS(cp))
+				}
+			}
+			oc.grouped = true
+		}
+	} // render steps
 	return oc
 }
 
@@ -1040,7 +1102,7 @@ const c30SigIPPort = "ipportset-with-other-criteria"
 func TestVerifC30WindowsFlattening(t *testing.T) {
 	ev.Quiet()
 	rec := ev.New("C30", "windataplane",
-		"<=3 tiers (any position of the 'default' tier, end-of-tier Deny/Pass) x <=5 policies + <=2 profiles of supported rules only (allow/deny/pass/next-tier/log; protocol by name/number; src/dst CIDR lists incl. v6 members that are filtered and lists >4000 entries; src/dst IP sets incl. empty and v6 members; egress ip-port sets; src/dst port lists incl. >4000 entries, only with tcp/udp/sctp), fed through the real policyManager, Windows IP set cache and endpointManager; every connection of a boundary grid (direction x 3 local IPs x 7 remote IPs x 5 protocols x boundary ports of the ports used) is evaluated. Non-trivial = for some connection the reference verdict was decided by a rule in a later list after a pass (pass rule or end-of-tier pass) AND both Allow and Block verdicts occur; distinct = distinct tier/policy/rule-action shape",
+		"<=3 tiers (any position of the 'default' tier, end-of-tier Deny/Pass) x <=5 policies + <=2 profiles of supported rules only (allow/deny/pass/next-tier/log; protocol by name/number; src/dst CIDR lists incl. v6 members that are filtered and lists >4000 entries; src/dst IP sets incl. empty and v6 members; egress ip-port sets; src/dst port lists incl. >4000 entries, only with tcp/udp/sctp), fed through the real policyManager, Windows IP set cache and endpointManager; 1-3 endpoints share one PolicySets/endpointManager (same policy pool and tier order, own policy subsets), are rendered in a drawn order and partly re-rendered, and after every render the rendered endpoint is checked against its own layout; every connection of a boundary grid (direction x 3 local IPs x 7 remote IPs x 5 protocols x boundary ports of the ports used) is evaluated. Non-trivial = for some connection the reference verdict was decided by a rule in a later list after a pass (pass rule or end-of-tier pass) AND both Allow and Block verdicts occur; distinct = distinct tier/policy/rule-action shape",
 		"HNS semantics as read from the code comments: lowest priority number among matching Switch rules decides; equal-priority matches with different actions are ambiguous; no match = Block; RuleType Host rules are not switch ACLs",
 		"the lists that are flattened are those endpoint_mgr.go assembles (tiers with policies in the direction; profiles appended iff no tier applies or the 'default' tier has no policies in that direction); pass out of the last list = Block as documented in flattenTiers",
 		"endpointManager.hostAddrs is cleared so that the separate allow-host-to-endpoint rule (priority 900) does not take part",
@@ -1146,7 +1208,62 @@ func TestVerifC30WindowsFlattening(t *testing.T) {
 				ep.ProfileIds = append(ep.ProfileIds, pd.id.Name)
 			}
 		}
-		sc.ep = ep
+		sc.eps = []*proto.WorkloadEndpoint{ep}
+		// Further endpoints share the policy pool, the tier order and the end-of-tier actions, but only a
+		// drawn subset of the policies (per direction) and profiles applies to them - so a tier that is
+		// the last one for one endpoint is followed by further tiers / profiles for another.
+		nExtra := rapid.SampledFrom([]int{0, 1, 1, 2}).Draw(t, "extraEndpoints")
+		if g.big && nExtra > 1 {
+			nExtra = 1
+		}
+		for x := 1; x <= nExtra; x++ {
+			e2 := &proto.WorkloadEndpoint{State: "active", Name: fmt.Sprintf("c30wl%d", x), Ipv4Nets: []string{fmt.Sprintf("10.65.0.%d/32", 2+x)}}
+			// Half of the further endpoints keep only a prefix of the tiers, with all their policies.
+			cut := -1
+			if len(ep.Tiers) > 1 && rapid.Bool().Draw(t, "prefixOfTiers") {
+				cut = rapid.IntRange(1, len(ep.Tiers)-1).Draw(t, "tiersKept")
+			}
+			for ti_i, ti := range ep.Tiers {
+				if cut >= 0 {
+					if ti_i < cut {
+						e2.Tiers = append(e2.Tiers, &proto.TierInfo{Name: ti.Name, DefaultAction: ti.DefaultAction,
+							IngressPolicies: ti.IngressPolicies, EgressPolicies: ti.EgressPolicies})
+					}
+					continue
+				}
+				t2 := &proto.TierInfo{Name: ti.Name, DefaultAction: ti.DefaultAction}
+				dropTier := rapid.IntRange(0, 3).Draw(t, "dropTier") == 0
+				for _, id := range ti.IngressPolicies {
+					if !dropTier && rapid.IntRange(0, 3).Draw(t, "keepIngress") != 0 {
+						t2.IngressPolicies = append(t2.IngressPolicies, id)
+					}
+				}
+				for _, id := range ti.EgressPolicies {
+					if !dropTier && rapid.IntRange(0, 3).Draw(t, "keepEgress") != 0 {
+						t2.EgressPolicies = append(t2.EgressPolicies, id)
+					}
+				}
+				if len(t2.IngressPolicies)+len(t2.EgressPolicies) > 0 {
+					e2.Tiers = append(e2.Tiers, t2)
+				}
+			}
+			for _, pd := range sc.profs {
+				if rapid.IntRange(0, 4).Draw(t, "useProfile") != 0 {
+					e2.ProfileIds = append(e2.ProfileIds, pd.id.Name)
+				}
+			}
+			sc.eps = append(sc.eps, e2)
+		}
+		idx := make([]int, len(sc.eps))
+		for i := range idx {
+			idx[i] = i
+		}
+		sc.order = rapid.Permutation(idx).Draw(t, "renderOrder")
+		if len(sc.eps) > 1 {
+			for n := rapid.IntRange(0, 2).Draw(t, "refreshes"); n > 0; n-- {
+				sc.order = append(sc.order, rapid.IntRange(0, len(sc.eps)-1).Draw(t, "refreshEndpoint"))
+			}
+		}
 
 		// Boundary ports for the grid.
 		portSet := map[int]bool{80: true}
@@ -1202,9 +1319,12 @@ func TestVerifC30WindowsFlattening(t *testing.T) {
 			}
 			shape.WriteString("]")
 		}
-		fmt.Fprintf(&shape, "P%d", len(ep.ProfileIds))
+		fmt.Fprintf(&shape, "P%d E%d O%v", len(ep.ProfileIds), len(sc.eps), sc.order)
 		for k, v := range map[string]bool{"decided-in-later-list-after-pass": oc.laterDecided, "matched-rule-from-split": oc.bigDecided, "big-case": g.big,
-			"grouped-priorities": oc.grouped, "profiles-appended": oc.profilesAppended, "3+lists": oc.manyLists} {
+			"grouped-priorities": oc.grouped, "profiles-appended": oc.profilesAppended, "3+lists": oc.manyLists,
+			"several-endpoints": len(sc.eps) > 1, "refresh-render": len(sc.order) > len(sc.eps),
+			"policy-last-tier-for-one-endpoint-nonlast-for-another":           oc.lastAndNonLast,
+			"policy-with-pass-last-tier-for-one-endpoint-nonlast-for-another": oc.lastAndNonLastWithPass} {
 			if v {
 				g.classes[k] = true
 			}
@@ -1235,7 +1355,7 @@ func c30FixedScenario(tierA, def []*proto.Rule, ipp map[string][]string, ports [
 	}
 	sc.pols = append(sc.pols, d)
 	ep.Tiers = append(ep.Tiers, &proto.TierInfo{Name: "default", DefaultAction: "Deny", EgressPolicies: []*proto.PolicyID{d.id}})
-	sc.ep = ep
+	sc.eps, sc.order = []*proto.WorkloadEndpoint{ep}, []int{0}
 	return sc
 }
 
